@@ -7,6 +7,7 @@ pub mod c02;
 pub mod c06;
 pub mod c07;
 pub mod c08;
+pub mod c10;
 pub mod c13;
 pub mod c14;
 pub mod c15;
@@ -28,6 +29,7 @@ pub fn lookup(id: &str) -> Option<PropDef> {
         "C06" => c06::def(),
         "C07" => c07::def(),
         "C08" => c08::def(),
+        "C10" => c10::def(),
         "C13" => c13::def(),
         "C14" => c14::def(),
         "C15" => c15::def(),
